@@ -105,6 +105,12 @@ def check_engine(rep, fb, ex, eq, callgraph):
         anc = sorted(t for t in lt if t.startswith('source-ancestry'))
         rep.check(len(anc) == 2, 'R01.13', eng + '|ancestor pre-emption', locstr(lsite), 'a transition whose source is an ancestor or descendant of an already selected transition\'s source is %s (terms: %s); a targetless transition has an empty exit set, so exit-set overlap alone lets the ancestor\'s transition fire as well' % (
             'recorded as conflicting' if len(anc) == 2 else 'NOT recorded as conflicting', sorted(lt)))
+    # R01.16 history default
+    hn, hd = _skel.history_default_condition(f)
+    if hn is None:
+        raise AnalysisBroken('%s: the test that selects a history state\'s default transition was not found' % eng)
+    rep.check(hd == ['nothing remembered'], 'R01.16', eng + '|history default', locstr(hn), 'a history state takes its default transition under: %s%s' % (
+        ' and '.join(sorted(hd)), '' if hd == ['nothing remembered'] else ' -- the recommendation takes it whenever no history value is recorded; with the extra condition a transition into the history of an active parent enters nothing'))
     # R01.15 extent of the exit interval
     exit_extent(rep, fb, f, eng)
     # R01.14 the set of still-compatible transitions only narrows
@@ -238,6 +244,7 @@ def run(rep, tier):
     rep.rule('R01.6', 'bitset typestate: no dynamic_bitset is indexed after clear() shrank it to zero bits')
     rep.rule('R01.8', 'interval closedness agreement: overlap and membership tests on exit intervals use non-strict comparisons, like the place that applies the interval')
     rep.rule('R01.9', 'state kind codes are an enumeration: they are compared, never bit-masked')
+    rep.rule('R01.16', 'history default: a history pseudo-state takes its default transition exactly when nothing is remembered for it (no further condition such as "the parent is not active")')
     rep.rule('R01.15', 'extent of the exit interval: its upper end is the last descendant of the transition domain, i.e. it is computed from the ancestor relation (membership scan or a walk up the parents), never from the position of the domain\'s next sibling alone with the end of the document as fall-back')
     rep.rule('R01.14', 'selection bookkeeping (large engine): when a further transition is selected, a bit of _compatible survives only if the new transition lists that index as compatible (intersection), and _conflicting only gains bits (union); the value stored is decided by the membership test with the right polarity')
     rep.rule('R01.13', 'optimal transition set: a transition selected in a descendant pre-empts the transitions of its ancestors even when it exits nothing (targetless); the selection does not rely on the position of states in the post-fix ordered view')
